@@ -1,7 +1,7 @@
 """C11 - behaviour does not depend on how the grammar module was produced."""
 from contracts import core, lists, bind, call, rt_run
 from pyvc.report import Report
-from .common import run_fragments, run_rt
+from .common import run_fragments, run_rt, dependency_layer
 from . import wiring
 
 
@@ -27,4 +27,5 @@ def run(tier, seed):
     rep.assumptions.append('same program text has the same behaviour (congruence) - this reduces "in-memory module vs emitted source executed separately" and '
                            '"repeated compilation" to textual identity + self-containedness')
     rep.assumptions.append('add_docstring / CodeBuilder.compile are outsourcer code (trusted; ground sanity check on adversarial descriptions)')
+    dependency_layer(rep, tier)
     return rep.finish()
